@@ -160,6 +160,7 @@ impl GLM {
 
         let mut penalized_deviance = f64::INFINITY;
         let mut is_converged;
+        let mut diverged = false;
         let mut n_iter = 0;
 
         let mut eta;
@@ -199,6 +200,14 @@ impl GLM {
                 self.apply_ddbeta_penalty(&mut ddbeta, p);
             }
 
+            // a score or an information matrix that overflowed gives a zero (or NaN) Newton step: the
+            // iterate would stay put and look converged
+            if dbeta.iter().chain(ddbeta.iter()).any(|v| !v.is_finite()) {
+                is_converged = false;
+                diverged = true;
+                break;
+            }
+
             // println!("dbeta {:?}", dbeta);
             // println!("ddbeta {:?}", ddbeta);
 
@@ -230,6 +239,9 @@ impl GLM {
         self.n = Some(sum(&weights).round() as usize);
         self.p = Some(p);
 
+        if diverged {
+            return Err("the score or the information matrix is not finite: the iteration cannot continue");
+        }
         if n_iter >= max_iter && !is_converged {
             return Err("reached maximum number of iterations without converging");
         }
